@@ -503,6 +503,12 @@ def call(f, *args, **kwargs):
         args = (list(args[0]),) + args[1:]      # materialise generators/deques so symbolic parts are seen
     if f is bytearray:
         return SymByteArray(*args)
+    if f is builtins.map and len(args) >= 2 and not kwargs:
+        # materialise the iterables (they may be iterators produced by another map()) so symbolic items are seen
+        its = [a if isinstance(a, (list, tuple)) else list(a) for a in args[1:]]
+        if _any_sym(its, {}):
+            return m_map(args[0], *its)
+        return map(args[0], *its)
     if not _any_sym(args, kwargs):
         return f(*args, **kwargs)
     model = None
